@@ -155,6 +155,10 @@ def enter(entry, term, panel=False, rows=None):
     return [float(b.calculate_likelihood(x, scaled=False))]
 
 
+class StopTask(Exception):
+    """The engine raised: the process is poisoned (sticky error); the rest of the task is not run."""
+
+
 def is_library_error(e):
     from biogeme.exceptions import BiogemeError
     return isinstance(e, BiogemeError)
@@ -196,7 +200,11 @@ def run_task(task):
     rec = Rec()
     part = task['part']
     if part == 'plant':
-        _plant(task, rec)
+        try:
+            _plant(task, rec)
+        except StopTask:
+            rec.count('capped')
+            rec.count('plant_tasks_cut_short_after_engine_error')
     elif part == 'plant_engine':
         _plant_engine(task, rec)
     elif part == 'valid':
@@ -233,12 +241,16 @@ def _judge(rec, fault, entry, p, s, wrapper, term, panel, case):
                       f'{fault} planted at {site_name(p, s)} (wrapper {wrapper}) through {entry}: raised {type(e).__name__}: {str(e)[:160]} '
                       f'instead of the library error; formula {R.show(term)}', case, observed=repr(e)[:300])
         rec.retire = True
+        from vf.engine import is_engine_error
+        if is_engine_error(e):
+            raise StopTask()
         return
     rec.case(key, (fault, entry, p, s, wrapper, 'accepted'), outcome='accepted')
     rec.violation(f'C12|faulty-specification-accepted|{where}',
                   f'{fault} planted at {site_name(p, s)} (wrapper {wrapper}) through {entry}: accepted, returned {out}; formula {R.show(term)}',
                   case, observed=out)
     rec.retire = True
+    raise StopTask()
 
 
 def _plant(task, rec):
@@ -264,8 +276,6 @@ def _plant(task, rec):
             for entry in entries:
                 case = dict(part='plant', fault=fault, p=p, s=s, wrapper=list(wrapper) if wrapper else None, entry=entry, tier=tier)
                 _judge(rec, fault, entry, p, s, wrapper, term, panel, case)
-                if rec.retire and len(rec.violations) > 30:
-                    return
 
 
 def _plant_engine(task, rec):
@@ -586,7 +596,10 @@ def replay(case):
         term = build_faulty(case['p'], case['s'], case['fault'], wrapper, novar=panel)
         if panel:
             term = ('*', ('traj', ('exp', ('*', ('beta', 'b_z'), ('var', 'x2')))), term)
-        _judge(rec, case['fault'], case['entry'], case['p'], case['s'], wrapper, term, panel, case)
+        try:
+            _judge(rec, case['fault'], case['entry'], case['p'], case['s'], wrapper, term, panel, case)
+        except StopTask:
+            pass
     elif part == 'plant_engine':
         _plant_engine(case, rec)
     elif part in ('valid', 'valid_panel'):
